@@ -324,6 +324,12 @@ func init() {
 	Register(&Check{ID: "C16", Level: "exploration",
 		Rule: "two kinds of cases, tape-chosen: (a) a generated workflow with exactly one in-port or parameter port left unconnected: the program must exit != 0 with an EMPTY command-execution trace; (b) RunTo / RunToRegex / RunToProcs with 1..3 tape-chosen targets on a generated graph (diamonds, parameter edges, fan-in): the set of processes with any start event must equal the reference closure exactly, all their tasks executed exactly once, final files = reference evaluation of the closure. distinct = event-log hash; non-trivial = (a) the refusal, (b) >=2 tasks executed; and >=1 non-default choice",
 		Run: func(c *Case) Verdict {
+			switch c.Tape.Choose(simrt.StGen, 6, 0) {
+			case 1:
+				return combinatorUnwiredCase(c)
+			case 2:
+				return paramChainRunToCase(c)
+			}
 			w := Generate(c.Tape, tierProfile(profC16, c.Tier))
 			if c.Tape.Choose(simrt.StGen, 3, 0) == 1 {
 				// (a) leave one port unconnected
@@ -405,3 +411,123 @@ func init() {
 }
 
 var _ = fmt.Sprint
+
+// refusalOracle: the program must refuse to run (exit != 0) before executing anything.
+func refusalOracle(c *Case, w *WF, what string) Verdict {
+	inc := RunInc(w, c.Tape, nil, 0, IncOpts{KillAt: -1, Strategy: strategyOf(c.Tape), Trace: c.Trace})
+	c.Absorb(inc)
+	c.Tasks = 2
+	if v, ok := inconclusiveEnd(inc); ok {
+		return v
+	}
+	s := inc.Sim
+	if len(s.Shell.Trace) > 0 {
+		return Viol("unwired-executed", "", "%s is unconnected, yet command(s) were executed: %v", what, execKeys(s.Shell.Trace, "start", 0))
+	}
+	if !(s.End == simrt.EndExit && s.ExitCode != 0) {
+		return Viol("unwired-not-refused", "", "%s is unconnected, but the program ended with %s", what, endDesc(inc))
+	}
+	return OK()
+}
+
+// combinatorUnwiredCase: a component whose in-ports and out-ports carry the
+// same names (FileCombinator / ParamCombinator) with one in-side port left
+// unconnected while the same-named out-port is consumed.
+func combinatorUnwiredCase(c *Case) Verdict {
+	t := c.Tape
+	w := &WF{Name: "wf", Sources: map[string]string{}, MaxTasks: 1 + t.Choose(simrt.StGen, 3, 0), Bufsize: bufsizeOf(t)}
+	ports := []string{"a", "b", "c"}
+	k := 1 + t.Choose(simrt.StGen, 3, 0)
+	miss := t.Choose(simrt.StGen, k, 0)
+	c.Fault("unconnected-port")
+	if t.Choose(simrt.StGen, 2, 0) == 0 {
+		cmb := Node{Name: "comb", Kind: KFileCombinator}
+		for i := 0; i < k; i++ {
+			in := InSpec{Name: ports[i]}
+			if i == miss {
+				in.Unconnected = true
+			} else {
+				s := srcNode(w, "src"+ports[i], 1+t.Choose(simrt.StGen, 2, 0), "")
+				in.From = []Edge{{s, "out"}}
+			}
+			cmb.Ins = append(cmb.Ins, in)
+			cmb.Outs = append(cmb.Outs, OutSpec{Name: ports[i]})
+		}
+		ci := addNode(w, cmb)
+		var outs []Edge
+		for i := 0; i < k; i++ {
+			outs = append(outs, Edge{ci, ports[i]})
+		}
+		zipConsumer(w, "use", outs, ports[:k])
+		// an unrelated branch that could run if the refusal did not happen
+		oneToOne(w, "witness", Edge{srcNode(w, "srcw", 1, ""), "out"})
+		c.Sample = "FileCombinator in-port " + ports[miss] + " unconnected: " + sample(w)
+		return refusalOracle(c, w, "in-port "+ports[miss]+" of comb")
+	}
+	cmb := Node{Name: "pcomb", Kind: KParamCombinator}
+	for i := 0; i < k; i++ {
+		ps := ParamSpec{Name: ports[i]}
+		if i == miss {
+			ps.Unconnected = true
+		} else {
+			ps.Vals = []string{ports[i] + "0", ports[i] + "1"}
+		}
+		cmb.Params = append(cmb.Params, ps)
+	}
+	ci := addNode(w, cmb)
+	var outs []Edge
+	for i := 0; i < k; i++ {
+		outs = append(outs, Edge{ci, ports[i]})
+	}
+	paramConsumer(w, "use", outs, ports[:k])
+	oneToOne(w, "witness", Edge{srcNode(w, "srcw", 1, ""), "out"})
+	c.Sample = "ParamCombinator in-port " + ports[miss] + " unconnected: " + sample(w)
+	return refusalOracle(c, w, "parameter in-port "+ports[miss]+" of pcomb")
+}
+
+// paramChainRunToCase: the RunTo target depends THROUGH A PARAMETER CONNECTION
+// on a process that has upstream processes itself (sources -> ParamCombinator
+// ==params==> target), next to processes that must not run.
+func paramChainRunToCase(c *Case) Verdict {
+	t := c.Tape
+	w := &WF{Name: "wf", Sources: map[string]string{}, MaxTasks: 1 + t.Choose(simrt.StGen, 3, 0), Bufsize: bufsizeOf(t)}
+	ports := []string{"a", "b", "c"}
+	k := 1 + t.Choose(simrt.StGen, 3, 0)
+	cmb := Node{Name: "pcomb", Kind: KParamCombinator}
+	for i := 0; i < k; i++ {
+		n := 1 + t.Choose(simrt.StGen, 2, 0)
+		var vals []string
+		for x := 0; x < n; x++ {
+			vals = append(vals, fmt.Sprintf("%s%d", ports[i], x))
+		}
+		s := addNode(w, Node{Name: "ps" + ports[i], Kind: KParamSrc, Vals: vals})
+		cmb.Params = append(cmb.Params, ParamSpec{Name: ports[i], From: &Edge{s, "out"}})
+	}
+	ci := addNode(w, cmb)
+	var outs []Edge
+	for i := 0; i < k; i++ {
+		outs = append(outs, Edge{ci, ports[i]})
+	}
+	tgt := paramConsumer(w, "target", outs, ports[:k])
+	after := oneToOne(w, "after", Edge{tgt, "o0"})
+	oneToOne(w, "after2", Edge{after, "o0"})
+	oneToOne(w, "side", Edge{srcNode(w, "srcs", 1, ""), "out"})
+	w.RunTo = []string{"target"}
+	if t.Choose(simrt.StGen, 3, 0) == 1 {
+		w.RunTo = []string{"after"}
+	}
+	w.RunToMode = t.Choose(simrt.StGen, 3, 0)
+	c.Sample = sample(w)
+	ex := Eval(w)
+	inc := RunInc(w, c.Tape, nil, 0, IncOpts{KillAt: -1, Strategy: strategyOf(c.Tape), Trace: c.Trace})
+	c.Absorb(inc)
+	if v, ok := inconclusiveEnd(inc); ok {
+		return v
+	}
+	for _, e := range inc.Sim.Shell.Trace {
+		if e.Kind == "start" && !ex.Active[e.Name] {
+			return Viol("outside-closure-executed", "", "RunTo%v executed a command of %s, which is outside the upstream closure", w.RunTo, e.Name)
+		}
+	}
+	return flowOracle(inc, ex)
+}
